@@ -122,6 +122,17 @@ def main():
             for f in demos:
                 shutil.copy(os.path.join(src, f), os.path.join(d, f))
             m = dict(breaks_property=prop, agent_meta=meta, confirmed=res)
+            # keep earlier confirmations (first run with the suite, runs before the check was strengthened)
+            oldp = os.path.join(d, "meta.json")
+            if os.path.exists(oldp):
+                try:
+                    o = json.load(open(oldp))
+                    h = o.get("history", [])
+                    if not isinstance(h, list):
+                        h = [h]
+                    m["history"] = h + [o.get("confirmed")]
+                except ValueError:
+                    pass
             json.dump(m, open(os.path.join(d, "meta.json"), "w"), indent=1)
     finally:
         sh("git -C /repo worktree remove --force %s" % wt)
